@@ -611,6 +611,36 @@ func SigOpCost(t *Tx, spent []Coin, p2sh, segwit bool) int {
 
 // ---------------------------------------------------------------- validation
 
+// SequenceLocksMet: do the relative lock-times (BIP68) of t, spending coins (one per input, Height = confirmation
+// height), allow it in a block at height built on parent?  (Only meaningful where CSV is active.)
+func (l *Ledger) SequenceLocksMet(t *Tx, coins []Coin, height uint32, parent *Node) bool {
+	if t.Ver < 2 {
+		return true
+	}
+	mtp := parent.MTP()
+	for i := range t.In {
+		seq := t.In[i].Seq
+		if seq&(1<<31) != 0 {
+			continue
+		}
+		c := coins[i]
+		if seq&(1<<22) != 0 {
+			base := l.Genesis.MTP()
+			if c.Height >= 1 {
+				if a := parent.Ancestor(c.Height - 1); a != nil {
+					base = a.MTP()
+				}
+			}
+			if int64(base)+int64(seq&0xffff)<<9-1 >= int64(mtp) {
+				return false
+			}
+		} else if int64(c.Height)+int64(seq&0xffff)-1 >= int64(height) {
+			return false
+		}
+	}
+	return true
+}
+
 // IsFinal: may t be part of a block at height whose lock-time cutoff (median time past of its parent) is cutoff.
 func IsFinal(t *Tx, height uint32, cutoff uint32) bool { return isFinal(t, height, cutoff) }
 
